@@ -20,6 +20,9 @@ type G struct {
 
 func New(seed int64) *G { return &G{R: rand.New(rand.NewSource(seed)), Kinds: map[string]int{}} }
 
+// Reseed restarts the random stream (one stream per script, so that a script can be regenerated alone)
+func (g *G) Reseed(seed int64) { g.R = rand.New(rand.NewSource(seed)) }
+
 var PromiseIds = []string{"p0", "p1", "p2", "P1", "a:b", "b:c", "x/y", "p0.1", "pé", "%", "p_"}
 var Patterns = []string{"*", "p*", "*1", "p_", "P*", "*:*", "a:b", "p0", "*é", "%", "p0.1", "*.*", "\\*", "x/*"}
 var ProcIds = []string{"w0", "w1", "w2"}
@@ -304,3 +307,6 @@ func (g *G) Batch() [][]*t_aio.Command {
 	}
 	return out
 }
+
+// Pick is the exported form of pick (scenario generators in the harnesses)
+func (g *G) Pick(xs []string) string { return g.pick(xs) }
